@@ -8,6 +8,13 @@ static inline _Bool v_str_eq(const struct v_str *a, const struct v_str *b) { ret
 static inline struct v_str v_str_any(void) { struct v_str r; __CPROVER_assume(r.size < V_MAXSZ); return r; }
 #define V_EXC_LENGTH_ERROR 5
 static inline struct v_str v_str_n(size_t n) { struct v_str r; r.size = n; if (n >= V_MAXSZ) { __exc = V_EXC_LENGTH_ERROR; r.size = 0; } return r; }   /* string(n, ch): absurd sizes throw */
+/* substr(pos, n): out_of_range when pos > size, else min(n, size - pos) characters */
+static inline struct v_str v_str_substr2(const struct v_str *s, size_t pos, size_t n) { struct v_str r; r.size = 0; if (pos > s->size) { __exc = V_EXC_OUT_OF_RANGE; return r; } r.size = n < s->size - pos ? n : s->size - pos; return r; }
+#define V_NPOS ((size_t)-1)
+/* find family: npos, or the position of a match of `len` characters that starts at or after pos and lies inside the string */
+static _Bool v_find2_hit;      /* ghost: a search for a two-character pattern (CRLF) has succeeded */
+static inline size_t v_str_find(const struct v_str *s, size_t pos, size_t len) { size_t r; if (len > s->size || pos > s->size - len) return V_NPOS; if (r == V_NPOS) return r; __CPROVER_assume(r >= pos && r <= s->size - len); if (len == 2) v_find2_hit = 1; return r; }
+static inline int v_nondet_int(void) { int x; return x; }
 static inline struct v_str v_str_substr(const struct v_str *s) { struct v_str r; __CPROVER_assume(r.size <= s->size); return r; }   /* pos <= size is the caller's business */
 static inline struct v_str v_str_cat(const struct v_str *a, const struct v_str *b) { struct v_str r; __CPROVER_assume(r.size < V_MAXSZ && (a == 0 || r.size >= a->size) && (b == 0 || r.size >= b->size)); return r; }
 static inline _Bool v_str_eq_lit(const struct v_str *s) { (void)s; _Bool r; return r; }
